@@ -3,6 +3,7 @@
 // sliced verbatim and instantiated textually onto the class shells of env/option_stub.h (see there).
 #include "base.h"
 //@slice src/option.h struct option_type_e
+//@slice src/option.h struct iarf_e
 static const option_type_e OT_BOOL = option_type_e::BOOL, OT_NUM = option_type_e::NUM, OT_UNUM = option_type_e::UNUM;   // aliases of the generated option_enum.h
 #include "option_stub.h"
 #define assert(c) VASSERT((c), "assert() in sliced code")
@@ -26,6 +27,8 @@ GenericOption *find_option(const char *name) { return 0; }
 void c_warn(const GenericOption *opt) { }
 void c_warn_value(const GenericOption *opt, const char *actual) { }
 bool c_convert_string_bool(const char *in, bool *out) { return nondet_bool(); }
+bool c_convert_string_iarf(const char *in, unsigned *out) { return nondet_bool(); }
+const char *c_option_text(const GenericOption *o) { return 0; }
 // libc strchr, real semantics (the terminating NUL is part of the string): used on the literals "-" and "~!-"
 const char *strchr(const char *s, int c)
 {
@@ -38,6 +41,8 @@ const char *strchr(const char *s, int c)
 }
 namespace std { static inline long strtol(const char *a, char **b, int c) { return(::strtol(a, b, c)); } }
 static bool convert_string(const char *in, bool &out) { return(c_convert_string_bool(in, &out)); }
+static bool convert_string(const char *in, iarf_e &out) { unsigned v = (unsigned)out; bool r = c_convert_string_iarf(in, &v); out = (iarf_e)v; return(r); }
+const char *GenericOption::text_shell::c_str() const { return(c_option_text(0)); }
 // diagnostics: every path through the real bodies (src/option.cpp) constructs an OptionWarning and calls it at least once
 void GenericOption::warnUnexpectedValue(const char *actual) const { c_warn_value(this, actual); }
 void GenericOption::warnIncompatibleReference(const GenericOption *ref) const { c_warn(this); }
@@ -56,8 +61,11 @@ extern "C" {
 //@slice src/option.cpp fn read_number key=read_number_signed
 //@slice src/option.cpp fn read_number key=read_number_unsigned
 #ifdef VERSION_PART
-//@slice src/option.cpp fn read_version_part
+//@slice src/option.cpp fn read_version_part ifdef=VERSION_PART
 #endif
+}
+extern "C" {
+//@slice src/option.cpp fn read_enum key=read_enum_iarf
 }
 //@slice src/option.cpp fn Option<bool>::read key=bool_read
 extern "C" {
@@ -68,7 +76,7 @@ bool w_bool_read(Option_bool *o, const char *in) { return(o->read(in)); }
 #include "offsets_cpp.h"
 #define CANARY(msg) __CPROVER_assert(0, "VACUITY_CANARY " msg)
 extern "C" {
-extern const unsigned OT_BOOL_V = (unsigned)option_type_e::BOOL, OT_NUM_V = (unsigned)option_type_e::NUM, OT_UNUM_V = (unsigned)option_type_e::UNUM;
+extern const unsigned OT_BOOL_V = (unsigned)option_type_e::BOOL, OT_NUM_V = (unsigned)option_type_e::NUM, OT_UNUM_V = (unsigned)option_type_e::UNUM, OT_IARF_V = (unsigned)option_type_e::IARF;
 extern size_t g_warn_n; extern bool g_is_ref;
 long nondet_long();
 void h_validate_signed() { Option_signed *o; bool r = w_validate_signed(o, nondet_long()); if (r) { CANARY("validate accepts"); } else { CANARY("validate rejects"); } }
@@ -78,5 +86,6 @@ void h_read_number_unsigned() { const char *in; Option_unsigned *o; bool r = rea
 #ifdef VERSION_PART
 void h_read_version_part() { const char *in; int *out; bool r = read_version_part(in, *out); if (r) { CANARY("version part accepted"); } else { CANARY("version part rejected"); } }
 #endif
+void h_read_enum_iarf() { const char *in; Option_iarf *o; bool r = read_enum_iarf(in, *o); if (r && !g_is_ref) { CANARY("read_enum: literal accepted"); } if (r && g_is_ref) { CANARY("read_enum: reference accepted"); } if (!r) { CANARY("read_enum: rejected"); } }
 void h_bool_read() { const char *in; Option_bool *o; bool r = w_bool_read(o, in); if (r) { CANARY("bool read accepted"); } else { CANARY("bool read rejected"); } }
 }
